@@ -46,9 +46,13 @@ class Capture:
         def fake_gamma(shape=None, scale=1.0, size=None):
             cap.k += 1
             val = 1000.0 + cap.k + 0.25
+            if size is not None:      # like numpy: the parameter arrays must broadcast to the requested output shape
+                np.broadcast_to(np.asarray(shape, dtype=float), size)
+                np.broadcast_to(np.asarray(scale, dtype=float), size)
             sh = np.asarray(shape, dtype=float).ravel()
             sc = np.asarray(scale, dtype=float).ravel()
-            cap.calls.append({"shape": sh.copy(), "scale": sc.copy(), "value": val, "obj": None})
+            cap.calls.append({"shape": sh.copy(), "scale": sc.copy(), "value": val, "obj": None,
+                              "nvariates": int(np.prod(size)) if size is not None else int(np.broadcast(np.asarray(shape), np.asarray(scale)).size)})
             return np.full(size if size is not None else (), val)
 
         def spy_sample(obj, N, rng=None):
@@ -200,6 +204,22 @@ def gen_supported(ctx, thorough):
                       "meank": meank, "mean": mean, "b": b, "name": name, "build": "posterior", "datak": "vec",
                       "alpha": dyadic(rng, 1, 24, 4) if rng.random() < 0.8 else 2.0 ** -rng.randint(1, 10),
                       "beta": dyadic(rng, 1, 24, 4) if rng.random() < 0.8 else 2.0 ** -rng.randint(1, 14)})
+    # ---- grids straddling config.MAX_DIM_INV = 2000 (44x44 = 1936, 45x45 = 2025): GMRF.__init__ / its helpers may switch
+    # algorithm with the size; the model evaluates these by stencils (driver op `gmrfs`, theorem gmrfQuadFast_eq)
+    large = [(1, "zero"), (2, "zero"), (rng.choice([0, 1]), rng.choice(["periodic", "neumann"]))]
+    if thorough:
+        large += [(o, bc) for o in (0, 1, 2) for bc in BCS] + [(1, "zero"), (2, "zero")]
+    for j, (o, bc) in enumerate(large):
+        n = rng.choice([45, 46, 47, 48, 50]) if j != 1 else rng.choice([45, 46, 48])
+        dim = n * n
+        meank = rng.choice(["vec", "zero"])
+        mean = [dyadic(rng, -2, 2, 4) for _ in range(dim)] if meank == "vec" else [0.0] * dim
+        # a smooth field plus quarter-valued noise (the regime of an image prior), exactly representable
+        b = [round(4 * (3 * math.sin(0.2 * (k // n)) * math.cos(0.15 * (k % n)))) / 4 + (dyadic(rng, -1, 1, 4) if rng.random() < 0.5 else 0.0)
+             for k in range(dim)]
+        specs.append({"dkind": "f64", "pkind": "float", "fam": "gmrf", "reg": False, "order": o, "bc": bc, "pd": 2, "n": n, "fkind": "id", "c": 1.0,
+                      "meank": meank, "mean": mean, "b": b, "name": "d", "build": "posterior", "datak": "vec", "large": True,
+                      "alpha": dyadic(rng, 1, 24, 4), "beta": dyadic(rng, 1, 24, 4)})
     return specs
 
 
@@ -315,7 +335,7 @@ def model_line(spec, f1):
     if spec["fam"] == "gauss":
         return (f"gauss {int(spec['reg'])} {spec['wiring']} {spec['n']} {q(f1)} {qv(spec['mean'])} {qv(spec['b'])} "
                 f"{q(spec['alpha'])} {q(spec['beta'])}")
-    return (f"gmrf {int(spec['reg'])} {spec['order']} {spec['bc']} {spec['pd']} {spec['n']} {q(f1)} {qv(spec['mean'])} "
+    return (f"{'gmrfs' if spec.get('large') else 'gmrf'} {int(spec['reg'])} {spec['order']} {spec['bc']} {spec['pd']} {spec['n']} {q(f1)} {qv(spec['mean'])} "
             f"{qv(spec['b'])} {q(spec['alpha'])} {q(spec['beta'])}")
 
 
@@ -1066,8 +1086,10 @@ def stream_approx(ctx, cuqi, thorough):
         dim = n if pd == 1 else n * n
         x = [dyadic(rng, -4, 4, 4) for _ in range(dim)]
         cases.append({"pd": pd, "n": n, "bc": bc, "x": x, "alpha": dyadic(rng, 1, 16, 4), "beta": dyadic(rng, 1, 16, 4)})
-    outs = ctx.lean.drive([f"approx {c['bc']} {c['pd']} {c['n']} {qv(c['x'])} {q(c['alpha'])}" for c in cases])
-    for c, out in zip(cases, outs):
+    both = ctx.lean.drive([f"approx {c['bc']} {c['pd']} {c['n']} {qv(c['x'])} {q(c['alpha'])}" for c in cases]
+                          + [f"approxr {c['bc']} {c['pd']} {c['n']} {qv(c['x'])} {q(c['alpha'])} {q(c['beta'])}" for c in cases])
+    outs, encl = both[:len(cases)], both[len(cases):]
+    for c, out, enc in zip(cases, outs, encl):
         desc = {k: c[k] for k in ("pd", "n", "bc", "alpha", "beta")}
         desc["x"] = c["x"][:6]
         geom = {"geometry": Image2D((c["n"], c["n"]))} if c["pd"] == 2 else {"geometry": c["n"]}
@@ -1095,6 +1117,23 @@ def stream_approx(ctx, cuqi, thorough):
             shape, rate = float(calls[0]["shape"][0]), 1.0 / float(calls[0]["scale"][0])
             if not close(shape, m_shape, SHAPE_TOL) or not close(rate, rate_ref, 1e-9):
                 ctx.disagree(key, desc, [str(m_shape), rate_ref], [shape, rate], "ConjugateApprox Gamma parameters differ from d+alpha, sum w_k (Dx)_k^2 + beta")
+            # the model's rational enclosure of the irrational rate (theorem approxRate_enclosure): the captured float must lie
+            # inside it up to the rounding of the code's own floating-point evaluation (relative 1e-12)
+            et = enc.split()
+            if len(et) != 3:
+                ctx.disagree(key + ":enclosure", desc, enc[:40], "sampled", "refusal differs")
+                continue
+            lo, hi = pq(et[1]), pq(et[2])
+            slack = Fraction(1, 10 ** 12)
+            fr = Fraction(rate)
+            ctx.extra_cov.setdefault("approx_rate_enclosure", {"inside": 0, "outside": 0, "max_rel_width": 0.0})
+            ec = ctx.extra_cov["approx_rate_enclosure"]
+            ec["max_rel_width"] = max(ec["max_rel_width"], float((hi - lo) / hi))
+            if lo * (1 - slack) <= fr <= hi * (1 + slack) and pq(et[0]) == m_shape:
+                ec["inside"] += 1
+            else:
+                ec["outside"] += 1
+                ctx.disagree(key + ":enclosure", desc, [float(lo), float(hi)], rate, "ConjugateApprox rate outside the model's enclosure of sum d_k^2/sqrt(d_k^2+1e-5) + beta")
 
 
 # ----------------------------------------------------------------------------- stream D: Direct
@@ -1473,3 +1512,14 @@ def run(ctx):
     stream_direct(ctx, cuqi, thorough)
     stream_direct_histories(ctx, cuqi, thorough)
     stream_conjugate_chain(ctx, cuqi, thorough)
+    # session-3 streams; one driver call for both (every call queues for the shared build lock)
+    from harness.props.c10_weighted import prepare_weighted, finish_weighted
+    from harness.props.c10_gammadim import prepare_gamma_dim, finish_gamma_dim
+    from harness.props.c10_gmrfglue import prepare_gmrf_glue, finish_gmrf_glue
+    lw, sw = prepare_weighted(ctx, cuqi, thorough)
+    lg, sg = prepare_gamma_dim(ctx, cuqi, thorough)
+    lm, sm = prepare_gmrf_glue(ctx, cuqi, thorough)
+    outs = ctx.lean.drive(lw + lg + lm)
+    finish_weighted(ctx, cuqi, sw, lw, outs[:len(lw)])
+    finish_gamma_dim(ctx, cuqi, sg, lg, outs[len(lw):len(lw) + len(lg)])
+    finish_gmrf_glue(ctx, cuqi, sm, lm, outs[len(lw) + len(lg):])
